@@ -48,6 +48,13 @@ func GenPressureScript(t *rapid.T, prop, profile string, o GenOpts) *Script {
 			leaves = append(leaves, q.Name)
 		}
 	}
+	if o.Limits {
+		for i := range s.World.Queues {
+			if chance(t, "plimit", 35) {
+				s.World.Queues[i].GPU.Limit = float64(rapid.IntRange(1, 4).Draw(t, "plimitv"))
+			}
+		}
+	}
 	s.World.PriorityClasses = []PriorityClassSpec{{"train", 50}, {"build", 100}, {"inference", 125}, {"low", 25}}
 	place := func(p *PodSpec) bool {
 		start := rapid.IntRange(0, nn-1).Draw(t, "pstart")
